@@ -10,6 +10,7 @@ package main
 //   query  : q/<from>/<size>/<start>/<end>/<filterRPN>[/<stage>]
 //            w                wait until the background write of persistent-query results has finished (no answer)
 //            filterRPN ::= item{,item}; item ::= all | c:<field>:<op>:<lit> | and | or | not ; lit ::= i… | d… | s<hex> | w<hex>
+//                    | t:<hex> free-text term | tc:<hex> case-sensitive term CASE(w) | p:<hex> phrase "…" | pc:<hex> case-sensitive phrase CASE("…")
 //            stage ::= recs | stats:<agg+agg>:<by+by|-> | tc:<spanMs>:<agg+agg>:<by|->     agg ::= count | sum.f | min.f | max.f | avg.f | dc.f | cnt.f (= count(f))
 //                    | pstats:… | ptc:…   the same command behind `| eval verif_pp=1`: the engine then runs it in the stats /
 //                                         timechart PROCESSOR of the pipeline instead of the search stage (same meaning, C06)
@@ -40,7 +41,7 @@ func init() {
 		gen := func(r *rand.Rand, n int, tier string) []string { return genE2E(r, n, tier, p) }
 		rule := "datasets of 1..40 events over typed columns (int, dyadic decimal, mixed, text, numeric text, sparse, bool, late) × random batch/flush/rotate histories × queries of profile " + p + "; each case runs in its own engine process; non-trivial = ≥3 events and ≥1 query"
 		if p == "c02" || p == "c03" {
-			rule += "; literal and column of different kinds by construction: quoted numbers against numbers, numeric text and text, text against numbers and booleans, wildcards against numbers, numeric text at the edges of the number grammar (+5, 1E2, 5., .5, 1e, -, e5, 0x10, nan, 1_000), a column mixing numbers, numeric text and text per block, free-text terms that are numbers"
+			rule += "; literal and column of different kinds by construction: quoted numbers against numbers, numeric text and text, text against numbers and booleans, wildcards against numbers, numeric text at the edges of the number grammar (+5, 1E2, 5., .5, 1e, -, e5, 0x10, nan, 1_000), a column mixing numbers, numeric text and text per block, free-text terms that are numbers; case-sensitive words and phrases (CASE(…)) and phrases over values in which the word first occurs inside a longer token and later as a whole word; multi-word values with capitals, never stored in lower case, searched by full value and phrase in another case"
 			if p == "c02" {
 				rule += "; every single numeric comparison once in the search clause and once as a where stage"
 			}
@@ -104,6 +105,19 @@ var e2eNumStrRe = regexp.MustCompile(`^[+-]?([0-9]+(\.[0-9]*)?|\.[0-9]+)([eE][+-
 // strings on both sides of the border of the grammar (all numeric ones exactly representable)
 var e2eNumEdge = []string{"+5", "1E2", "5.", ".5", "007", "-0", "+.5e1", "1e1", "2.50", "1E+2", "1e", "1e+", "-", "e5", "0x10", "12a", "nan", "1_000", "5 ", "٥"}
 
+var e2eWordy = []string{"xtimeout timeout", "retry-timeout reached timeout", "timeout", "a timeout b", "timeoutx timeout timeout", "Timeout timeout",
+	"TIMEOUT  timeout", "timeout-x", "xtimeout", "the Timeout", "timeout timeout", "no match here", "timeoutxtimeout timeout", "reached timeout now",
+	"xtimeout ytimeout", "retry timeoutx", "Reached Timeout"}
+
+// spellings of one message each; never all lower case
+var e2eMsgs = [][]string{
+	{"Connection refused by peer", "connection Refused by peer", "CONNECTION REFUSED by PEER", "connection refused by Peer"},
+	{"Disk quota exceeded on Volume", "Disk Quota exceeded on volume", "DISK quota exceeded on volume"},
+	{"read Timeout occurred", "Read timeout Occurred"},
+	{"User Login failed", "user login Failed", "USER login failed"},
+	{"Peer refused", "peer Refused"},
+}
+
 type kv struct{ k, tv string }
 type e2eEvent struct {
 	vid    int
@@ -164,6 +178,20 @@ func genEvent(r *rand.Rand, vid int, ts uint64, profile string, late bool) e2eEv
 	}
 	if r.Intn(4) == 0 {
 		add("x", fmt.Sprintf("i%d", r.Intn(5)))
+	}
+	if profile == "c02" || profile == "c03" {
+		if r.Intn(3) == 0 {
+			// free text in which a word first occurs INSIDE a longer token and later (or never) as a whole word, at the
+			// start / middle / end, repeated, in another case
+			add("w", "s"+hexs(e2eWordy[r.Intn(len(e2eWordy))]))
+		}
+		if r.Intn(3) == 0 {
+			// multi-word values with capitals; the all-lower-case spelling is never stored, and most spellings have an
+			// all-lower-case second-to-last word (searched by full value / phrase in another case: the block bloom must
+			// hold the lower-cased full value and every word in both cases)
+			m := e2eMsgs[r.Intn(len(e2eMsgs))]
+			add("msg", "s"+hexs(m[r.Intn(len(m))]))
+		}
 	}
 	if (profile == "c02" || profile == "c03") && r.Intn(3) == 0 {
 		// a column mixing numbers, numeric text and text: what a value is stored as depends on what else its block holds
@@ -244,6 +272,9 @@ func genCmpK(r *rand.Rand, profile string, k int) string {
 	if (profile == "c02" || profile == "c03") && r.Intn(5) == 0 {
 		return genCmpLit(r)
 	}
+	if (profile == "c02" || profile == "c03") && r.Intn(5) == 0 {
+		return genCmpText(r)
+	}
 	switch k {
 	case 0, 1:
 		return fmt.Sprintf("c:i:%s:i%d", ops[r.Intn(6)], r.Intn(26)-5)
@@ -315,6 +346,43 @@ func genCmpLit(r *rand.Rand) string {
 		return fmt.Sprintf("c:s:%s:s%s", eqne, hexs(strconv.Itoa(r.Intn(9))))
 	default: // free-text term that is a number
 		return "t:" + hexs([]string{"3", "7", "12", "2.5", "-1", "0", "5"}[r.Intn(7)])
+	}
+}
+
+// free text with and without CASE(…), one word and phrases, and full-value / phrase searches of the multi-word
+// messages in a spelling that differs from every stored one
+func genCmpText(r *rand.Rand) string {
+	recase := func(s string) string {
+		switch r.Intn(3) {
+		case 0:
+			return strings.ToLower(s)
+		case 1:
+			return strings.ToUpper(s)
+		default: // every word capitalised
+			ws := strings.Split(strings.ToLower(s), " ")
+			for i, w := range ws {
+				if w != "" {
+					ws[i] = strings.ToUpper(w[:1]) + w[1:]
+				}
+			}
+			return strings.Join(ws, " ")
+		}
+	}
+	switch r.Intn(8) {
+	case 0, 1: // case-sensitive word
+		return "tc:" + hexs([]string{"timeout", "timeout", "Timeout", "TIMEOUT", "xtimeout", "reached", "timeoutx", "retry"}[r.Intn(8)])
+	case 2: // the same words, case-insensitive
+		return "t:" + hexs([]string{"timeout", "Timeout", "xtimeout", "reached", "retry"}[r.Intn(5)])
+	case 3: // case-sensitive phrase
+		return "pc:" + hexs([]string{"reached timeout", "timeout timeout", "timeout b", "a timeout", "Timeout timeout", "retry timeoutx", "timeout now", "refused by", "by peer"}[r.Intn(9)])
+	case 4: // phrase, any case
+		return "p:" + hexs(recase([]string{"reached timeout", "timeout timeout", "timeout b", "the timeout", "refused by", "by peer", "quota exceeded on", "login failed"}[r.Intn(8)]))
+	case 5, 6: // the full message as a field value, in another spelling
+		m := e2eMsgs[r.Intn(len(e2eMsgs))]
+		return fmt.Sprintf("c:msg:%s:s%s", []string{"eq", "eq", "eq", "ne"}[r.Intn(4)], hexs(recase(m[0])))
+	default: // the full message as a free-text phrase, in another spelling
+		m := e2eMsgs[r.Intn(len(e2eMsgs))]
+		return "p:" + hexs(recase(m[0]))
 	}
 }
 
@@ -1099,6 +1167,19 @@ func filterToSPL(rpn string) (string, bool) {
 				return "", false
 			}
 			st = append(st, string(b))
+		case (p[0] == "tc" || p[0] == "p" || p[0] == "pc") && len(p) == 2:
+			b, err := hex.DecodeString(p[1])
+			if err != nil || len(b) == 0 || strings.ContainsAny(string(b), "\"\\") || (p[0] == "tc" && strings.Contains(string(b), " ")) {
+				return "", false
+			}
+			switch p[0] {
+			case "tc":
+				st = append(st, "CASE("+string(b)+")")
+			case "p":
+				st = append(st, `"`+string(b)+`"`)
+			default:
+				st = append(st, `CASE("`+string(b)+`")`)
+			}
 		case p[0] == "c" && len(p) == 4:
 			lit, ok := litToSPL(p[3])
 			op, ok2 := opm[p[2]]
@@ -1883,6 +1964,15 @@ func e2eQueryTags(tok string, q e2eQuery, evTs []uint64, seenFilter map[string]s
 		}
 		if len(ip) == 2 && ip[0] == "t" && e2eNumStrRe.MatchString(unhexs(ip[1])) {
 			tags["filter:numeric-free-text-term"] = true
+		}
+		if len(ip) == 2 && (ip[0] == "tc" || ip[0] == "pc") {
+			tags["filter:case-sensitive-term-or-phrase"] = true
+		}
+		if len(ip) == 2 && (ip[0] == "p" || ip[0] == "pc") {
+			tags["filter:phrase"] = true
+		}
+		if len(ip) == 4 && ip[1] == "msg" {
+			tags["filter:multi-word-value-in-another-case"] = true
 		}
 	}
 	for _, a := range q.aggs {
